@@ -73,6 +73,9 @@ type BindInfo struct {
 	// disabling time; zero if it was never observed to be disabled)
 	DisabledAt   time.Time
 	HasDisabledAt bool
+	// BelowSinceParamChange: the binding was available and compliant until governance raised the minimum above its
+	// deposit; no operation of the module is involved, so the C14 invariant exempts it until its owner touches it
+	BelowSinceParamChange bool
 }
 
 type Tracker struct {
@@ -116,6 +119,7 @@ func (t *Tracker) rebase(s *Snap) {
 		if old, ok := t.Binds[bk]; ok {
 			bi.GenesisBelowMin = old.GenesisBelowMin && bi.GenesisBelowMin
 			bi.DisabledAt, bi.HasDisabledAt = old.DisabledAt, old.HasDisabledAt && !b.Available
+			bi.BelowSinceParamChange = old.BelowSinceParamChange
 		}
 		t.Binds[bk] = bi
 		if _, ok := t.ProviderOwner[hx(b.Provider)]; !ok {
@@ -132,8 +136,12 @@ func (t *Tracker) rebase(s *Snap) {
 	}
 	for id, c := range s.Ctx {
 		if ci, ok := t.Ctxs[id]; ok {
-			// imported context: paused, no batch in flight; keep identity, restart history
-			ci.Events = append(ci.Events, CtxEvent{H: s.Height, Kind: "reimport"})
+			// imported context: paused, no batch in flight; keep identity, restart history (heights start again)
+			ci.Events = []CtxEvent{{H: s.Height, Kind: "reimport"}}
+			ci.Batches = nil
+			ci.CreatedAt = -1
+			ci.CreatedRunning = false
+			ci.Removed = false
 			continue
 		}
 		t.Ctxs[id] = &CtxInfo{ID: id, Origin: "genesis", Repeated: c.Repeated, MaxTotal: c.RepeatedTotal, Consumer: c.Consumer, EverUnlimited: c.RepeatedTotal < 0}
@@ -210,8 +218,37 @@ func splitReqID(id []byte) (ctx []byte, batch uint64, height int64, index int, o
 // Apply absorbs one step into the ledgers.
 func (t *Tracker) Apply(x *Exec, r *StepRec) {
 	pre, post := r.Pre, r.Post
-	if r.Kind == "msgfail" || r.Kind == "modfail" || r.Kind == "commit" || r.Kind == "begin" || r.Kind == "params" {
+	if r.Kind == "params" {
+		for _, bk := range post.BindingKeys() {
+			b := post.Bindings[bk]
+			bi := t.Binds[bk]
+			if bi == nil || !b.Available {
+				continue
+			}
+			if hp, err := ParseHPricing(b.Pricing); err == nil {
+				dep := bigInt(coinsStake(b.Deposit))
+				oldMin := hp.MinDepositFor(coinsStake(pre.Params.MinDeposit), pre.Params.MinDepositMultiple)
+				newMin := hp.MinDepositFor(coinsStake(post.Params.MinDeposit), post.Params.MinDepositMultiple)
+				if dep.Cmp(oldMin) >= 0 && dep.Cmp(newMin) < 0 {
+					bi.BelowSinceParamChange = true
+				}
+			}
+		}
 		return
+	}
+	if r.Kind == "msgfail" || r.Kind == "modfail" || r.Kind == "commit" || r.Kind == "begin" {
+		return
+	}
+	for _, bk := range post.BindingKeys() {
+		if bi := t.Binds[bk]; bi != nil && bi.BelowSinceParamChange {
+			b := post.Bindings[bk]
+			if !b.Available {
+				bi.BelowSinceParamChange = false
+			} else if hp, err := ParseHPricing(b.Pricing); err == nil &&
+				bigInt(coinsStake(b.Deposit)).Cmp(hp.MinDepositFor(coinsStake(post.Params.MinDeposit), post.Params.MinDepositMultiple)) >= 0 {
+				bi.BelowSinceParamChange = false
+			}
+		}
 	}
 	h := post.Height
 
